@@ -33,6 +33,12 @@ pub struct DriveOpts {
     pub session_timeout_s: u64,
     /// rustc binary used to confirm violations (premise + ill-formedness); None = no confirmation
     pub rustc: Option<PathBuf>,
+    /// per-expansion watchdog inside sessions (seconds); a hang is only reported after it has
+    /// been confirmed by a fresh-process replay with the full 30 s limit
+    pub watchdog_s: u64,
+    /// number of sweep sessions: together they deliver every corpus item and directed seed
+    /// (twice each, under two contexts), so systematic seeds never depend on sampling
+    pub sweep: u64,
 }
 
 #[derive(Clone, Debug, Serialize, Deserialize)]
@@ -132,7 +138,11 @@ fn spawn_session(exe: &Path, o: &DriveOpts, idx: u64) -> std::io::Result<Child> 
         .arg("--max-steps")
         .arg(o.max_steps.to_string())
         .arg("--out")
-        .arg(o.out.join("sessions").join(format!("{idx}.json")));
+        .arg(o.out.join("sessions").join(format!("{idx}.json")))
+        .arg("--timeout")
+        .arg(o.watchdog_s.to_string())
+        .arg("--sweep-n")
+        .arg(o.sweep.to_string());
     if o.step_log {
         c.arg("--step-log");
     }
@@ -179,13 +189,16 @@ pub fn drive(o: &DriveOpts) -> Result<DriveSummary, String> {
 
     // ---- run sessions, at most `jobs` at a time; results are merged in index order afterwards
     let mut running: Vec<(u64, Child, Instant)> = Vec::new();
-    let mut next = o.first_session;
-    let end = o.first_session + o.sessions;
+    let ids: Vec<u64> = (0..o.sweep)
+        .map(|k| crate::session::SWEEP_BASE + k)
+        .chain(o.first_session..o.first_session + o.sessions)
+        .collect();
+    let mut next = 0usize;
     let mut crashed: Vec<(u64, String)> = Vec::new();
-    while next < end || !running.is_empty() {
-        while next < end && running.len() < o.jobs {
-            let c = spawn_session(&exe, o, next).map_err(|e| format!("spawn session: {e}"))?;
-            running.push((next, c, Instant::now()));
+    while next < ids.len() || !running.is_empty() {
+        while next < ids.len() && running.len() < o.jobs {
+            let c = spawn_session(&exe, o, ids[next]).map_err(|e| format!("spawn session: {e}"))?;
+            running.push((ids[next], c, Instant::now()));
             next += 1;
         }
         let mut k = 0;
@@ -243,7 +256,7 @@ pub fn drive(o: &DriveOpts) -> Result<DriveSummary, String> {
     let mut success: BTreeSet<String> = BTreeSet::new();
     let mut step_log_all = String::new();
     crashed.sort();
-    for idx in o.first_session..end {
+    for idx in ids.iter().copied() {
         let path = o.out.join("sessions").join(format!("{idx}.json"));
         let text = match std::fs::read_to_string(&path) {
             Ok(t) => t,
@@ -471,7 +484,16 @@ pub fn drive(o: &DriveOpts) -> Result<DriveSummary, String> {
             Some(k) => {
                 let (idx, v, n_steps) = list.into_iter().nth(k).unwrap();
                 let report = minimise_and_write(&exe, o, &pool, idx, &v, n_steps, occurrences, &class);
-                sum.classes.push(report);
+                if report.kind == "hang" && !report.reproducible {
+                    // the short in-session watchdog fired but a fresh process finished within the
+                    // full limit: a stalled machine, not a verdict
+                    let mut r = report;
+                    r.detail = format!("{} (not confirmed by the 30 s fresh-process replay)", r.detail);
+                    let _ = std::fs::remove_file(&r.replay);
+                    sum.unconfirmed.push(r);
+                } else {
+                    sum.classes.push(report);
+                }
             }
             None => {
                 let (_, v, _) = list.into_iter().next().unwrap();
@@ -502,6 +524,7 @@ fn session_params(o: &DriveOpts, idx: u64) -> SessionParams {
         mutants: o.mutants,
         min_steps: o.min_steps,
         max_steps: o.max_steps,
+        sweep_n: o.sweep,
     }
 }
 
@@ -560,6 +583,8 @@ fn attribute_crash(exe: &Path, o: &DriveOpts, idx: u64, pool: &Pool) -> Option<(
         .arg(&out)
         .arg("--progress")
         .arg(&trace)
+        .arg("--sweep-n")
+        .arg(o.sweep.to_string())
         .env_clear()
         .current_dir(&o.out)
         .stdin(Stdio::null())
